@@ -89,7 +89,8 @@ def oracle_fp(rec, lines):
                 near = False
             else:
                 interior = (3 <= s and s + 2 < jc and s + 5 <= n) or (jc + 2 <= s and 4 <= s and s + 4 <= n)
-                near = (jc - 2 <= s < jc + 2) and 4 <= jc and jc + 5 <= n
+                # (columns within 4 cells of the border also feed the zeroed border rows: not judged here)
+                near = (jc - 2 <= s < jc + 2) and 4 <= jc and jc + 5 <= n and 4 <= s and s + 4 <= n
             if interior and not abs(cs - 1.0) <= tol:
                 return "column %d of the operator sums to %r (|defect| > %g)" % (s, cs, tol)
             if near and rec["fpt"] in (0, 2) and not abs(cs - 1.0) <= tol:
